@@ -18,7 +18,7 @@ func init() {
 	register(&Property{
 		ID:        "C17",
 		Technique: "static analysis: dependence summaries (no clock/random/process source reaches the layout), classification of every map iteration in the layout call tree by order-insensitive idiom, totality of the ordering comparators by guard implication, guard implication on the refusal and on the no-duplicate moves, argument/term provenance of the ring slot and exclusion bookkeeping, error-guarded use of the layout in all callers",
-		Explanation: "Decides structural necessary conditions of the placement property, not the layouts themselves: (D1) the layout is a deterministic function of its inputs: no clock/random/process-identity value flows into the result of getRebalancedNamespacePartitions, every iteration over a Go map in its call tree is order-insensitive by idiom (keys collected then sorted; per-key lists each sorted before use; insertion into an ordered tree map whose comparator is total), and the comparators are total orders: they return 0 only through the final comparison of the unique per-node nameIndex; (D2) refusal: a layout is computed only under not(len(currentNodes) < replica) and not(totalCnt < replica), the refusing returns carry ErrNodeUnavailable with a nil layout; (D3) no caller uses the layout unless the error was tested nil; (D4) ring (v1): replica j of a partition is ring slot (start+j) mod ring length with j < replica, the start advances by one per partition, and the ring is the interleave of the per-data-centre sorted lists in which every node is taken exactly once; (D5) incremental (v2), distinctness bookkeeping: old members and every newly chosen node are on the exclusion list before the next choice, excluded nodes never enter the candidate tree, an old member is kept only when it is a live node, the load maps only ever get keys that are live nodes, and a balance move puts the least-loaded node into a partition only when it is not already one of its replicas.",
+		Explanation: "Decides structural necessary conditions of the placement property, not the layouts themselves: (D1) the layout is a deterministic function of its inputs: no clock/random/process-identity value flows into the result of getRebalancedNamespacePartitions, every iteration over a Go map in its call tree is order-insensitive by idiom (keys collected then sorted; per-key lists each sorted before use; insertion into an ordered tree map whose comparator is total), and the comparators are total orders: they return 0 only through the final comparison of the unique per-node nameIndex; (D2) refusal: a layout is computed only under not(len(currentNodes) < replica) and not(totalCnt < replica), the refusing returns carry ErrNodeUnavailable with a nil layout; (D3) no caller uses the layout unless the error was tested nil; (D4) ring (v1): replica j of a partition is ring slot (start+j) mod ring length with j < replica, the start advances by one per partition, and the ring is the interleave of the per-data-centre sorted lists in which every node is taken exactly once; (D5) incremental (v2), distinctness bookkeeping: old members and every newly chosen node are on the exclusion list before the next choice, excluded nodes never enter the candidate tree, an old member is kept only when it is a live node, the load maps only ever get keys that are live nodes, and a balance move puts the least-loaded node into a partition only when it is not already one of its replicas. (D6) per-node values (the data-centre key) are declared inside the loop over the node map.",
 		NotDecided: "the arithmetic behind the statement: that the slots are pairwise distinct for every topology, data-centre spread for even topologies, equal leader counts, v2 validity over all histories of layouts (these quantify over all node sets and need the values); the candidate tree being non-empty when a choice is made.",
 		Assumptions: []string{"path conditions as in C01", "github.com/emirpasic/gods treemap orders by the comparator it was built with; murmur3.Sum32 and sort.Sort are deterministic"},
 		Run:         runC17,
